@@ -27,6 +27,9 @@ CLAIMED = {
  "C05": ("exploration", "reference-model monitor + linearizability checker over recorded reply histories",
    "Sequential SETCLUSTER/SETREPL sequences against a reference model with unique message contents (routing probes and INFOREPL identify the installed message); concurrent deliveries on a multi-thread runtime checked for linearizability of replies, epoch monotonicity and routing-not-older-than-epoch.",
    "section 2, C05"),
+ "C07": ("fault_enumeration", "offline checkers over recorded network / broker-call logs + bounded-progress monitor under a seeded fault plan",
+   "Whole system in memory (real broker service, real coordinator components, real proxies). A seeded plan drops requests and replies, duplicates, replays stale messages late, loses broker requests / replies, crashes a coordinator at the n-th outgoing call, runs one or two coordinators concurrently and restarts proxies empty. Checked: per-proxy epoch trace never decreases without a restart; each migration commit accepted at most once; destination before source after every undisturbed commit; after the faults stop, convergence of epochs / roles / migrations within a bounded number of rounds and routing probes.",
+   "section 2, C07"),
  "C08": ("fault_enumeration", "exactly-once / reply-origin checker over recorded request-reply histories with injected connection faults",
    "The real backend sender stack over in-memory byte pipes to a scripted backend that fragments, stalls and breaks connections at every position (before read, mid-request, after execute, mid-reply, refused reconnect) under all batching strategies and connection counts; plus real TCP sessions with fragmented pipelines. Every request must end with exactly one result whose payload is joined with the backend's exchange log.",
    "section 2, C08"),
